@@ -86,7 +86,7 @@ def correspond(ctx):
     for ast, data in _leaf_sweeps():
         obj = sc.build(ast)
         cases.append((ast, obj, sc.comb_sx(obj), 1, 1, data))
-    for _ in range(ctx.n(2500, 25000)):
+    for _ in range(ctx.n(10000, 80000)):
         ast = sc.gen_any_term(rng, rng.choice([1, 2, 2, 3]))
         try:
             obj = sc.build(ast)
